@@ -1,5 +1,5 @@
 // C14: path localisation.  case: <game 0..5> <lang 0..7> <path as L-list>
-use crate::util::*;
+use crate::h_util::*;
 use mila::*;
 
 pub fn localizer(g: u64) -> PathLocalizer {
